@@ -196,7 +196,8 @@ pub fn make_module() -> KMap {
         match ctx.instance_and_args(KValue::is_iterable, expected_error)? {
             (iterable, []) => {
                 let iterable = iterable.clone();
-                let mut result = 0;
+                // Counted as an i64, an i32 would overflow after 2^31 values
+                let mut result: i64 = 0;
                 for output in ctx.vm.make_iterator(iterable)? {
                     if let Output::Error(error) = output {
                         return Err(error);
